@@ -297,7 +297,7 @@ PROPS = {
                   'operations (lock acquire/release, atomic operations, spawn/join, yield, the library sync points) with at most 1 (quick) / 2 (thorough, 2 threads) preemptions; clock fixed inside a bucket, or stepped into the next bucket by thread 0 after its first entry; '
                   'chain of the real prepare and resource-statistic slots',
         'assumptions': ['sequentially consistent memory', 'initialisers of lazy statics and Once run without preemption (std blocks concurrent callers)',
-                        'a schedule-dependent counterexample is confirmed natively by a stress replay with delay injection at the library sync points (up to 150 runs per profile); one that never reproduces is reported as inconclusive, not as a violation'],
+                        'a schedule-dependent counterexample is confirmed natively by a stress replay with delay injection at the library sync points and randomised thread start offsets (up to 1600 runs, 16 at a time, at most 60 s); one that never reproduces is reported as inconclusive, not as a violation'],
         'scenarios': [
             {'name': 'c14_shared_node', 'threads': True, 'shapes': {'quick': c14_shapes('quick'), 'thorough': c14_shapes('thorough')},
              'witnesses': ['joined'], 'selftest': {'quick': 4, 'thorough': 8}},
@@ -375,7 +375,7 @@ PROPS = {
     'C03': {
         'level': 'model_checking',
         'bounds': 'strategies slow-ratio/error-ratio/error-count; 1-2 breakers on one resource (second with doubled retry timeout); 1-2 window buckets of a 1000 ms window; '
-                  'retry timeout 400 ms (shorter than the window) or 1500 ms (longer); event depth 3 (quick) / 4 (thorough) over {enter, complete oldest ok, complete oldest with error}, '
+                  'retry timeout 400 ms (shorter than the window) or 1500 ms (longer); event depth 3-6 (quick) / 4-6 (thorough) over {enter, complete oldest ok, complete oldest with error}, '
                   'each preceded by a symbolic time advance in [0, max(1000, retry)+100] ms; min_request_amount in [0,3]; ratio thresholds from {0,1/4,1/3,1/2,2/3,3/4,1}, count thresholds in [0,4]; max_allowed_rt 100 ms',
         'assumptions': ['virtual clock', 'breaker consultation order is read back from get_breakers_of_resource',
                         'a probe rejected by another breaker returns to Open without a new retry time (as the property states only the return to Open)'],
